@@ -26,6 +26,7 @@ type tierPlan struct {
 var plans = map[string]map[string]tierPlan{
 	"default": {"quick": {24000, 240}, "thorough": {600000, 2400}},
 	"C08":     {"quick": {8000, 240}, "thorough": {200000, 2400}},
+	"C10":     {"quick": {6000, 240}, "thorough": {150000, 2400}},
 }
 
 func planFor(prop, tier string) tierPlan {
@@ -324,7 +325,22 @@ func cmdCheck(args []string) int {
 
 	for _, k := range known.Open {
 		if k.Property == *prop {
-			fmt.Printf("KNOWN-FINDING: property=%s %s [%s] (seen %d times in this run)\n", k.Property, k.What, k.Fingerprint, merged.KnownSeen[k.Fingerprint])
+			status := ""
+			if k.Replay != "" {
+				cmd := exec.Command(self, "replay", "--quiet", filepath.Join(verifDir(), k.Replay))
+				cmd.Env = append(os.Environ(), "VERIF_DIR="+verifDir())
+				err := cmd.Run()
+				code := 0
+				if ee, ok := err.(*exec.ExitError); ok {
+					code = ee.ExitCode()
+				}
+				if code == 1 {
+					status = "; regression replay " + k.Replay + " reproduces"
+				} else {
+					status = fmt.Sprintf("; regression replay %s no longer reproduces (exit %d)", k.Replay, code)
+				}
+			}
+			fmt.Printf("KNOWN-FINDING: property=%s %s [%s] (seen %d times in this run%s)\n", k.Property, k.What, k.Fingerprint, merged.KnownSeen[k.Fingerprint], status)
 		}
 	}
 
@@ -392,6 +408,7 @@ func cmdReplay(args []string) int {
 		fmt.Fprintln(os.Stderr, "bad replay file:", err)
 		return 2
 	}
+	world.IsKnown = nil // a replay shows the violation whether or not it is a recorded finding
 	startWatchdog(time.Duration(*budget)*time.Second, func() {
 		fmt.Printf("engine call did not return within %ds\nVIOLATION property=C05 replay=%s\n", *budget, fs.Arg(0))
 		os.Exit(3)
